@@ -29,6 +29,7 @@ func main() {
 	out := flag.String("json", "", "write reports as JSON to this file")
 	trace := flag.Bool("trace", false, "trace instructions")
 	slog := flag.String("solver-log", "", "write worker 0's SMT-LIB dialogue here")
+	hangViol := flag.Bool("hang-violation", false, "an exhausted step budget is a violation (label hang) instead of an incomplete path")
 	modfile := flag.String("modfile", "", "alternate go.mod (keeps /repo untouched)")
 	cpuprof := flag.String("cpuprofile", "", "write CPU profile")
 	flag.Parse()
@@ -76,7 +77,7 @@ func main() {
 			continue
 		}
 		rep := sx.Explore(p, h, sx.Options{Solver: *solver, TimeoutMS: *timeout, Workers: *workers, MaxPaths: *maxPaths,
-			MaxSteps: *maxSteps, Deadline: *deadline, MaxViolations: *maxViol, Trace: *trace, SolverLog: *slog})
+			MaxSteps: *maxSteps, Deadline: *deadline, MaxViolations: *maxViol, Trace: *trace, SolverLog: *slog, HangIsViolation: *hangViol})
 		fmt.Print(rep.Summary())
 		reports = append(reports, rep)
 		if len(rep.Violations) > 0 {
